@@ -121,7 +121,9 @@ class StaticFileHandler(RequestHandler):
         # Get the requested path (remove leading slash). Clients percent-encode
         # characters such as spaces or non-ASCII letters (RFC 3986), so the
         # path has to be decoded before it is looked up on the filesystem.
-        requested_path = unquote(request.path).lstrip("/")
+        # A file name need not be UTF-8: its bytes are spelled %XX in a URL and
+        # are mapped back to exactly those bytes (PEP 383) instead of U+FFFD.
+        requested_path = unquote(request.path, errors="surrogateescape").lstrip("/")
 
         # Construct the full file path
         try:
